@@ -3,6 +3,7 @@ package props
 // Generators for valid minter configurations and block partitions (DESIGN §3).
 
 import (
+	c4eapp "github.com/chain4energy/c4e-chain/app"
 	"fmt"
 	"math/big"
 	"sort"
@@ -340,4 +341,28 @@ func (c MinterCfg) Horizon() int64 {
 		tail = 10 * secNs
 	}
 	return cur + tail
+}
+
+
+// tenfoldMinters returns the minter list with ten times the amounts (same ids, kinds and end times).
+func tenfoldMinters(ms []*mintertypes.Minter) (out []*mintertypes.Minter) {
+	for _, m := range ms {
+		c := *m
+		switch v := m.Config.GetCachedValue().(type) {
+		case *mintertypes.LinearMinting:
+			c.Config = mustAny(&mintertypes.LinearMinting{Amount: v.Amount.MulRaw(10)})
+		case *mintertypes.ExponentialStepMinting:
+			c.Config = mustAny(&mintertypes.ExponentialStepMinting{Amount: v.Amount.MulRaw(10), StepDuration: v.StepDuration, AmountMultiplier: v.AmountMultiplier})
+		}
+		out = append(out, &c)
+	}
+	return out
+}
+
+// rolledBackMinterUpdate executes a schedule update with ten times the amounts on a branch of the state
+// that is thrown away - what x/gov does with a passed proposal whose later message fails.  The schedule
+// in force stays what it was.  Returns whether the update itself was accepted on the branch.
+func rolledBackMinterUpdate(a *c4eapp.App, ctx sdk.Context, params mintertypes.Params) bool {
+	branch, _ := ctx.CacheContext()
+	return RunMsg(a, branch, &mintertypes.MsgUpdateMintersParams{Authority: GovAuthority(), StartTime: params.StartTime, Minters: tenfoldMinters(params.Minters)}).OK()
 }
